@@ -9,9 +9,15 @@
   temp-file syscalls).  `step : Sys → Op → Sys × Res` is one operation of
   src/chunk.c, `run` a whole history.  Fault schedules are part of the world
   (`wsched`, `msched`): a theorem about all `s : Sys` is a theorem about all
-  fault schedules.  `s.abs i` are the bytes queue `i` holds.
+  fault schedules.  `s.abs i` are the bytes queue `i` holds, read off the
+  model's file store (which keeps the content of unlinked files);
+  `c17_read_progress` / `c17_peek_progress` show that these are exactly the
+  bytes a reader gets: the read operations of the model fail, like the C, on a
+  chunk whose file can no longer be opened, and under the invariant they do not
+  fail.
 -/
-import LtVerif.Proofs.CqSpill
+import LtVerif.Proofs.CqRead
+import LtVerif.Proofs.CqLive
 namespace LtVerif.C17
 open LtVerif LtVerif.Cq
 
@@ -21,8 +27,10 @@ def init (w : World) (_ : w.nfiles = 0) : Sys := { w := w, q0 := {}, q1 := {} }
 
 /-- The invariant behind everything below is inductive: every operation, under
     every fault schedule, successful or failed, keeps it (exact counters, chunks
-    inside their files, one owning chunk per temp file spanning the whole file,
-    names and ghost lengths accounted for). -/
+    inside their files, every file chunk readable — it holds a descriptor, owns
+    its temp file's name, or names a file of the application —, one owning chunk
+    per temp file spanning the whole file, names and ghost lengths accounted
+    for). -/
 theorem c17_invariant (base : Nat → Int) (s : Sys) (ops : List Op) (h : FInv base s)
     (hops : ∀ (pre : List Op) (op : Op) (post : List Op), ops = pre ++ op :: post → OpOK (run s pre) op) :
     FInv base (run s ops) :=
@@ -77,12 +85,18 @@ theorem c17_refines_fifo (base : Nat → Int) (s : Sys) (op : Op) (h : FInv base
     | _ => cases hsp
 
 /-- Fault safety: when a spilling operation reports an error, nothing is
-    duplicated or reordered.  append_mem_to_tempfile leaves a prefix of (old
-    bytes ++ offered bytes); steal_with_tempfiles has taken exactly some k ≤ n
-    bytes out of the source and the destination holds a prefix of (old bytes ++
-    those k bytes); the other queue is untouched.  (On success the same facts
-    hold with equality: `ok = true`.)  The invariant survives: the error is
-    surfaced, the queues stay consistent. -/
+    duplicated, reordered or modified.  append_mem_to_tempfile leaves a prefix
+    of (old bytes ++ offered bytes); steal_with_tempfiles has taken exactly some
+    k ≤ n bytes out of the source and the destination holds a prefix of (old
+    bytes ++ those k bytes); the other queue is untouched.  (On success the same
+    facts hold with equality: `ok = true`.)  The invariant survives: the error
+    is surfaced, the queues stay consistent.
+    NOT claimed: that the destination keeps the bytes it held before the failed
+    call.  chunkqueue_to_tempfiles() releases what is left of its private copy
+    of the queue when a write fails, so bytes queued in MEM chunks of the
+    destination before the call can be gone afterwards (the caller is told -1
+    and gives the request up): `c17_fault_drops_queued_bytes` below is a witness.
+    The loss is always a suffix (what stays is a prefix), and it is reported. -/
 theorem c17_fault_safe (base : Nat → Int) (s : Sys) (h : FInv base s) (qi : Bool) :
     (∀ d ok, (step s (.appendMemToTempfile qi d)).2 = .rc ok →
       FInv base (step s (.appendMemToTempfile qi d)).1 ∧
@@ -103,6 +117,74 @@ theorem c17_fault_safe (base : Nat → Int) (s : Sys) (h : FInv base s) (qi : Bo
   · obtain ⟨hf, hres⟩ := step_finv s (.stealWithTempfiles qi n) h trivial
     simp only [SpillRes, hrc, Transfer] at hres
     exact ⟨hf, hres⟩
+
+/-- Retryable write results never surface as an error: when every scripted
+    result of the temp-file writes is ok, a short write (of any length), EINTR
+    or ENOSPC (anything but EIO), no mkostemp() fails, the destination queue has
+    more upload dirs left than ENOSPC results are to come (with `$TMPDIR` only:
+    none comes) and no temp chunk holds a read-only descriptor (a closed temp
+    file re-opened by a reader: the kernel answers EBADF), then
+    append_mem_to_tempfile and steal_with_tempfiles report success — short
+    writes are continued, EINTR retried, ENOSPC falls back to the next upload
+    dir — for every layout of both queues, every length, every such schedule.
+    In particular the iteration bounds (`fuel`) of the model's retry loops are
+    never the reason for a reported error under these schedules, and the nested
+    chunkqueue_to_tempfiles() never needs a second nesting. -/
+theorem c17_retryable_never_fails (s : Sys) (qi : Bool)
+    (hws : ∀ f ∈ s.w.wsched, f ≠ .eio)
+    (hms : ∀ b ∈ s.w.msched, b = false)
+    (hdir : (s.w.ndirs = 0 ∧ s.w.wsched.count .enospc = 0) ∨
+      (s.get qi).tdIdx + s.w.wsched.count .enospc < s.w.ndirs)
+    (hro : ∀ fid off len, Chunk.file fid off len true .ro ∉ s.chunks) :
+    (∀ d, (step s (.appendMemToTempfile qi d)).2 = .rc true) ∧
+      (∀ n, (step s (.stealWithTempfiles qi n)).2 = .rc true) := by
+  have hb : Benign s.w := by
+    refine ⟨fun f hf => ?_, hms⟩
+    have := hws f hf
+    cases f <;> first | rfl | exact absurd rfl this
+  have hwr : ∀ i, AllWr (s.get i).chunks := by
+    intro i c hc
+    have hm := Sys.mem_chunks i hc
+    cases c with
+    | mem d off cap => trivial
+    | file fid off len t fd =>
+      cases t
+      · cases fd <;> trivial
+      · cases fd
+        · trivial
+        · exact absurd hm (hro fid off len)
+        · trivial
+  have hg : Good s.w (s.get qi) := ⟨hb, hdir, hwr qi⟩
+  refine ⟨fun d => ?_, fun n => ?_⟩
+  · have := appendMemToTempfile_good d hg
+    simp only [step]
+    exact congrArg Res.rc this
+  · have := stealWithTempfiles_good (src := s.get (!qi)) n hg (hwr (!qi))
+    simp only [step]
+    exact congrArg Res.rc this
+
+/-- … hence under such schedules the spilling operations are exact FIFO
+    transfers, unconditionally (no "unless an error is reported"). -/
+theorem c17_retryable_fifo (base : Nat → Int) (s : Sys) (qi : Bool) (h : FInv base s)
+    (hws : ∀ f ∈ s.w.wsched, f ≠ .eio)
+    (hms : ∀ b ∈ s.w.msched, b = false)
+    (hdir : (s.w.ndirs = 0 ∧ s.w.wsched.count .enospc = 0) ∨
+      (s.get qi).tdIdx + s.w.wsched.count .enospc < s.w.ndirs)
+    (hro : ∀ fid off len, Chunk.file fid off len true .ro ∉ s.chunks) :
+    (∀ d, (step s (.appendMemToTempfile qi d)).1.abs qi = s.abs qi ++ d ∧
+      (step s (.appendMemToTempfile qi d)).1.abs (!qi) = s.abs (!qi)) ∧
+    (∀ n, (step s (.stealWithTempfiles qi n)).1.abs qi = s.abs qi ++ (s.abs (!qi)).take n ∧
+      (step s (.stealWithTempfiles qi n)).1.abs (!qi) = (s.abs (!qi)).drop n) := by
+  obtain ⟨r1, r2⟩ := c17_retryable_never_fails s qi hws hms hdir hro
+  refine ⟨fun d => ?_, fun n => ?_⟩
+  · have := (c17_refines_fifo base s (.appendMemToTempfile qi d) h trivial (fun _ => r1 d)).1
+    rw [r1 d] at this
+    simp only [specStep, Op.qi, Prod.mk.injEq] at this
+    exact this
+  · have := (c17_refines_fifo base s (.stealWithTempfiles qi n) h trivial (fun _ => r2 n)).1
+    rw [r2 n] at this
+    simp only [specStep, Op.qi, Prod.mk.injEq] at this
+    exact this
 
 /-- chunkqueue_steal(): the first min(n, |src|) bytes of src move to the tail
     of dest, in order and unmodified; nothing else changes. -/
@@ -134,11 +216,55 @@ theorem c17_read_data (s : Sys) (i : Bool) (n : Nat) (h : Inv s) :
     simp only [specStep, Op.qi, Prod.mk.injEq] at h1
     exact h1.1
 
-/-- chunkqueue_reset(): the queue is empty, its counters are zero. -/
-theorem c17_reset_empties (s : Sys) (i : Bool) :
-    ((step s (.reset i)).1.get i).chunks = [] ∧ ((step s (.reset i)).1.get i).bytesIn = 0 ∧
-      ((step s (.reset i)).1.get i).bytesOut = 0 := by
-  cases i <;> exact ⟨rfl, rfl, rfl⟩
+/-- chunkqueue_read_data() / chunkqueue_peek_data() make progress: in a system
+    that satisfies the invariant, reading n ≤ length bytes succeeds, hands out
+    exactly the first n queued bytes and consumes them.  No queued byte is ever
+    unreachable (the temp file of a chunk without descriptor still has its name,
+    a file chunk copied out of a temp chunk holds a descriptor of its own).
+    Read faults (pread/open errors) are outside the model. -/
+theorem c17_read_progress (base : Nat → Int) (s : Sys) (i : Bool) (n : Nat) (h : FInv base s)
+    (hn : 0 < n) (hle : n ≤ (s.abs i).length) :
+    (step s (.readData i n)).2 = .read (some ((s.abs i).take n)) ∧
+      (step s (.readData i n)).1.abs i = (s.abs i).drop n := by
+  have hr : (step s (.readData i n)).2 = .read (some ((s.abs i).take n)) := by
+    have := readData_ok s.w (s.get i) n (h.inv.get i) (fun c hc => h.openable c (Sys.mem_chunks i hc)) hn hle
+    simp only [step]
+    exact congrArg Res.read this
+  refine ⟨hr, ?_⟩
+  have := c17_read_data s i n h.inv
+  rw [hr] at this
+  exact this.2.2
+
+theorem c17_peek_progress (base : Nat → Int) (s : Sys) (i : Bool) (n : Nat) (h : FInv base s) (hn : 0 < n) :
+    (step s (.peekData i n)).2 = .peeked true ((s.abs i).take n) := by
+  obtain ⟨a, b⟩ := peekData_ok s.w (s.get i) n (h.inv.get i) (fun c hc => h.openable c (Sys.mem_chunks i hc)) hn
+  simp only [step]
+  rw [a, b]
+  rfl
+
+/-- The FIFO refinement holds at every point of every history (any fault
+    schedule): whatever operations ran before, the next one acts on the queued
+    bytes like the reference queue (spilling operations: unless they report an
+    error, see `c17_fault_safe`). -/
+theorem c17_history_refines (base : Nat → Int) (s : Sys) (ops : List Op) (h : FInv base s)
+    (hops : ∀ (pre : List Op) (op : Op) (post : List Op), ops = pre ++ op :: post → OpOK (run s pre) op)
+    (pre : List Op) (op : Op) (post : List Op) (e : ops = pre ++ op :: post)
+    (hok : op.spills = true → (step (run s pre) op).2 = .rc true) :
+    ((step (run s pre) op).1.abs op.qi, (step (run s pre) op).1.abs (!op.qi)) =
+        specStep (fun fid => ((run s pre).w.files fid).content) ((run s pre).abs op.qi)
+          ((run s pre).abs (!op.qi)) op (step (run s pre) op).2 ∧
+      resOK ((run s pre).abs op.qi) op (step (run s pre) op).2 := by
+  have hrun : ∀ (a b : List Op) (t : Sys), run t (a ++ b) = run (run t a) b := by
+    intro a
+    induction a with
+    | nil => intro b t; rfl
+    | cons x xs ih => intro b t; exact ih b _
+  have hpre : FInv base (run s pre) := by
+    refine run_finv s pre h ?_
+    intro p o q e'
+    have := hops p o (q ++ op :: post) (by rw [e, e']; simp)
+    exact this
+  exact c17_refines_fifo base (run s pre) op hpre (hops pre op post e) hok
 
 /-- No leak, no double release, for every history and every fault schedule:
     in a well-accounted system (every open descriptor is held by a chunk; a
@@ -220,5 +346,82 @@ example : (step (step (init failWorld rfl) (.appendMem false [1, 2, 3, 4, 5])).1
     (.stealWithTempfiles true 5)).1.abs true = [1, 2, 3] := by decide
 example : (step (step (init failWorld rfl) (.appendMem false [1, 2, 3, 4, 5])).1
     (.stealWithTempfiles true 5)).1.abs false = [4, 5] := by decide
+
+/-- the error case of `c17_fault_safe` can drop bytes the destination held
+    before the call: dest [1,2,3] (MEM), src [4,5], one byte reaches the temp
+    file, then the only upload dir is full: -1 is reported, dest holds [1], src
+    is untouched (chunkqueue_to_tempfiles() released its copy of [2,3]) -/
+def dropWorld : World := { cs := 1024, ndirs := 1, wsched := [.short 1, .enospc] }
+def dropSys : Sys := (step (step (init dropWorld rfl) (.appendMem true [1, 2, 3])).1 (.appendMem false [4, 5])).1
+theorem c17_fault_drops_queued_bytes :
+    dropSys.abs true = [1, 2, 3] ∧ (step dropSys (.stealWithTempfiles true 2)).2 = .rc false ∧
+      (step dropSys (.stealWithTempfiles true 2)).1.abs true = [1] ∧
+      (step dropSys (.stealWithTempfiles true 2)).1.abs false = [4, 5] := by decide
+
+/-- chunkqueue_reset(): the queue is empty, its counters are zero (by definition
+    of the model's reset; what it releases is `c17_reset_releases`) -/
+example (s : Sys) (i : Bool) :
+    ((step s (.reset i)).1.get i).chunks = [] ∧ ((step s (.reset i)).1.get i).bytesIn = 0 ∧
+      ((step s (.reset i)).1.get i).bytesOut = 0 := by
+  cases i <;> exact ⟨rfl, rfl, rfl⟩
+
+/-- `c17_retryable_never_fails` is not vacuous: short writes, EINTR and an
+    ENOSPC (two upload dirs) in the schedule, MEM chunks in both queues, a temp
+    file that fills up -/
+def retryWorld : World :=
+  { cs := 1024, defTempSize := 3, ndirs := 2,
+    wsched := [.short 1, .enospc, .eintr, .short 2, .short 0, .ok, .eintr] }
+def retrySys : Sys :=
+  (step (step (init retryWorld rfl) (.appendMem true [1, 2, 3])).1 (.appendMem false [4, 5, 6, 7])).1
+example : (step retrySys (.stealWithTempfiles true 3)).2 = .rc true ∧
+    (step retrySys (.stealWithTempfiles true 3)).1.abs true = [1, 2, 3, 4, 5, 6] ∧
+    (step retrySys (.stealWithTempfiles true 3)).1.abs false = [7] ∧
+    (step retrySys (.stealWithTempfiles true 3)).1.w.wsched = [.eintr] ∧
+    (step retrySys (.stealWithTempfiles true 3)).1.w.nfiles = 2 ∧
+    ((step retrySys (.stealWithTempfiles true 3)).1.get true).tdIdx = 1 := by decide
+
+/-- a system with one file of the application (five bytes, one name) -/
+def srcWorld : World :=
+  { cs := 1024, defTempSize := 2, ndirs := 1, nfiles := 1, nsrc := 1,
+    files := fun f => if f = 0 then { content := [10, 11, 12, 13, 14], nlink := 1 } else {} }
+def srcBase : Nat → Int := fun f => if f = 0 then 1 else 0
+def srcSys : Sys := { w := srcWorld, q0 := {}, q1 := {} }
+
+example : FInv srcBase srcSys := by
+  have hfresh : Fresh srcWorld := by
+    intro fid hle
+    have : fid ≠ 0 := by simp only [srcWorld] at hle; omega
+    simp [sz, srcWorld, this]
+  refine ⟨⟨hfresh, ⟨ValidAll.nil _, rfl⟩, ⟨ValidAll.nil _, rfl⟩⟩, ⟨hfresh, ⟨fun f => ?_, fun f hle => ?_, fun f hf => ?_⟩,
+    ValidAll.nil _, fun f => ?_⟩, fun f => ?_⟩
+  · by_cases h0 : f = 0 <;> simp [srcSys, srcWorld, srcBase, h0]
+  · have h0 : f ≠ 0 := by simp only [srcSys, srcWorld] at hle; omega
+    simp [srcSys, srcWorld, srcBase, h0]
+  · by_cases h0 : f = 0 <;> simp [srcSys, srcWorld, srcBase, h0] at hf
+  · by_cases h0 : f = 0 <;> simp [srcSys, srcWorld, srcBase, h0, Sys.chunks]
+  · by_cases h0 : f = 0 <;> simp [srcSys, srcWorld, srcBase, h0]
+
+example : OpOK srcSys (.appendFile false 0 1 3 false) := by
+  simp [OpOK, srcSys, srcWorld, sz]
+
+/-- file chunks by name and by descriptor, range copy, get_memory/use_memory,
+    compaction, squash, peek: every operation family on a concrete history -/
+def srcOps : List Op :=
+  [.appendFile false 0 1 3 false, .appendMem false [1, 2], .appendFile false 0 0 2 true,
+   .appendCqRange true false 2 4, .getUseMemory true 8 [7, 8], .compactMem true 6,
+   .appendMemToTempfile false [3, 4, 5], .steal true 9, .readSquash true]
+
+example : (run srcSys srcOps).abs true = [13, 1, 2, 10, 7, 8, 11, 12, 13, 1, 2, 10, 11, 3, 4] := by decide
+example : (run srcSys srcOps).abs false = [5] := by decide
+example : (step (run srcSys srcOps) (.peekData true 4)).2 = .peeked true [13, 1, 2, 10] := by decide
+example : (step (run srcSys srcOps) (.readData true 20)).2 = .read none := by decide
+
+/-- the S1 history: a partial steal out of a closed temp chunk, then the owner
+    is consumed and unlinks the file: the stolen bytes are still handed out -/
+def s1World : World := { cs := 1024, defTempSize := 2, ndirs := 1 }
+def s1Ops : List Op :=
+  [.appendMemToTempfile false [1, 2, 3, 4, 5], .appendMemToTempfile false [6], .steal true 2, .markWritten false 3]
+example : ((run (init s1World rfl) s1Ops).w.files 0).nlink = 0 := by decide
+example : (step (run (init s1World rfl) s1Ops) (.readData true 2)).2 = .read (some [1, 2]) := by decide
 
 end LtVerif.C17
